@@ -28,11 +28,11 @@ theorem rnd_near {x : ℝ} (h0 : 0 ≤ x) (h1 : x ≤ 2 ^ 53) : |rnd (F := F) x 
   have : (1:ℝ) / 10 ^ 30 ≤ 1 := by rw [div_le_one (by positivity)]; norm_num
   linarith
 
-/-- the normalised total: finite, non-negative, at most `2^48`, for finite arguments with
-    `|p| ≤ 1e200`, `|d| ≥ 1e-200` and `|p·π/d| ≤ 2^42` (the property's `|2p/d| ≤ 2^40` gives `2^41·π/4`) -/
-theorem newTotal_spec {p d : F} (hp : Fin p) (hd : Fin d) (hpb : |val p| ≤ 10 ^ 200)
+/-- the raw total `p·π/d` as the constructor computes it (either order of operations): finite and at most `2^43` in
+    magnitude, for finite arguments with `|p| ≤ 1e200`, `|d| ≥ 1e-200` and `|p·π/d| ≤ 2^42` -/
+theorem newRawTotal_spec {p d : F} (hp : Fin p) (hd : Fin d) (hpb : |val p| ≤ 10 ^ 200)
     (hdl : 1 / 10 ^ 200 ≤ |val d|) (hq : |val p * piV F / val d| ≤ 2 ^ 42) :
-    Fin (newTotal p d) ∧ 0 ≤ val (newTotal p d) ∧ val (newTotal p d) ≤ 2 ^ 48 := by
+    Fin (newRawTotal p d) ∧ |val (newRawTotal p d)| ≤ 2 ^ 43 := by
   have hpi3 := piV_gt3 (F := F); have hpi4 := piV_lt4 (F := F)
   have hdpos : 0 < |val d| := lt_of_lt_of_le (by positivity) hdl
   have hd0 : val d ≠ 0 := abs_pos.mp hdpos
@@ -70,28 +70,101 @@ theorem newTotal_spec {p d : F} (hp : Fin p) (hd : Fin d) (hpb : |val p| ≤ 10 
   have hx1d : |x1 / val d| ≤ 2 ^ 42 + 2 := by
     have := abs_sub_abs_le_abs_sub (x1 / val d) (val p * piV F / val d)
     linarith
-  obtain ⟨hf2, hv2⟩ := fdiv_spec hf1 hd hd0 (by
-    rw [← hx1]; apply inRange_of_abs_le_2p60
-    have : (2:ℝ) ^ 42 + 2 ≤ 2 ^ 60 := by norm_num
-    linarith)
-  rw [← hx1] at hv2
-  obtain ⟨x2, hx2⟩ : ∃ x, x = val (fdiv (fmul p (FloatLike.pi : F)) d) := ⟨_, rfl⟩
-  rw [← hx2] at hv2
-  have hx2b : |x2| ≤ 2 ^ 43 := by
-    rw [hv2]
-    have hc := rnd_close (F := F) (x1 / val d)
-    have h53 : |x1 / val d| / 2 ^ 53 ≤ 1 := by
-      rw [div_le_one (by positivity)]
-      have : (2:ℝ) ^ 42 + 2 ≤ 2 ^ 53 := by norm_num
+  unfold newRawTotal
+  simp only
+  by_cases hnorm : FloatLike.isNormal (fmul p (FloatLike.pi : F)) = true
+  · rw [if_pos hnorm]
+    obtain ⟨hf2, hv2⟩ := fdiv_spec hf1 hd hd0 (by
+      rw [← hx1]; apply inRange_of_abs_le_2p60
+      have : (2:ℝ) ^ 42 + 2 ≤ 2 ^ 60 := by norm_num
+      linarith)
+    rw [← hx1] at hv2
+    obtain ⟨x2, hx2⟩ : ∃ x, x = val (fdiv (fmul p (FloatLike.pi : F)) d) := ⟨_, rfl⟩
+    rw [← hx2] at hv2
+    have hx2b : |x2| ≤ 2 ^ 43 := by
+      rw [hv2]
+      have hc := rnd_close (F := F) (x1 / val d)
+      have h53 : |x1 / val d| / 2 ^ 53 ≤ 1 := by
+        rw [div_le_one (by positivity)]
+        have : (2:ℝ) ^ 42 + 2 ≤ 2 ^ 53 := by norm_num
+        linarith
+      have := abs_sub_abs_le_abs_sub (rnd (F := F) (x1 / val d)) (x1 / val d)
+      have : (1:ℝ) / 10 ^ 30 ≤ 1 := by rw [div_le_one (by positivity)]; norm_num
+      have : (2:ℝ) ^ 42 + 2 + 1 + 1 ≤ 2 ^ 43 := by norm_num
       linarith
-    have := abs_sub_abs_le_abs_sub (rnd (F := F) (x1 / val d)) (x1 / val d)
+    exact ⟨hf2, by rw [← hx2]; exact hx2b⟩
+  · -- the product is finite but below the normal range: `|p·π| < 2^-1021`, so `p/d` is tiny and is scaled last
+    have hnn : ¬ ((1:ℝ) / 2 ^ 1022 ≤ |val (fmul p (FloatLike.pi : F))|) := fun h => hnorm ((isNormal_spec hf1).mpr h)
+    rw [if_neg hnorm]
+    rw [← hx1] at hnn
+    push Not at hnn
+    have htiny : (1:ℝ) / 2 ^ 1075 ≤ 1 / 2 ^ 1022 := one_div_le_one_div_of_le (by positivity) (pow_le_pow_right₀ (by norm_num) (by norm_num))
+    have h1022 : 4 * ((1:ℝ) / 2 ^ 1022) ≤ 1 / 10 ^ 300 := by
+      have e : 4 * ((1:ℝ) / 2 ^ 1022) = 1 / 2 ^ 1020 := by
+        rw [show (1022:ℕ) = 2 + 1020 by norm_num, pow_add]; field_simp; norm_num
+      rw [e]
+      apply one_div_le_one_div_of_le (by positivity)
+      calc (10:ℝ) ^ 300 = (10 ^ 3) ^ 100 := by rw [← pow_mul]
+        _ ≤ (2 ^ 10) ^ 100 := by gcongr; norm_num
+        _ = 2 ^ 1000 := by rw [← pow_mul]
+        _ ≤ 2 ^ 1020 := pow_le_pow_right₀ (by norm_num) (by norm_num)
+    generalize (1:ℝ) / 2 ^ 1022 = u at hnn htiny h1022
+    generalize (1:ℝ) / 2 ^ 1075 = t at he1 htiny
+    have hpp : |val p * piV F| ≤ 4 * u := by
+      have h1 := abs_sub_abs_le_abs_sub (val p * piV F) x1
+      rw [abs_sub_comm] at h1
+      have h2 : |val p * piV F| / 2 ^ 53 ≤ |val p * piV F| / 2 := by
+        apply div_le_div_of_nonneg_left (abs_nonneg _) (by norm_num) (by norm_num)
+      linarith
+    have hpabs : |val p| ≤ 1 / 10 ^ 300 := by
+      rw [abs_mul, abs_of_pos (by linarith : (0:ℝ) < piV F)] at hpp
+      nlinarith [abs_nonneg (val p)]
+    have hpd : |val p / val d| ≤ 1 := by
+      rw [abs_div, div_le_one hdpos]
+      have : (1:ℝ) / 10 ^ 300 ≤ 1 / 10 ^ 200 :=
+        one_div_le_one_div_of_le (by positivity) (pow_le_pow_right₀ (by norm_num) (by norm_num))
+      generalize (1:ℝ) / 10 ^ 300 = a at this hpabs
+      generalize (1:ℝ) / 10 ^ 200 = b at this hdl
+      linarith
+    obtain ⟨hf3, hv3⟩ := fdiv_spec hp hd hd0 (by
+      apply inRange_of_abs_le_1000; linarith)
+    have hc3 := rnd_close (F := F) (val p / val d)
+    rw [← hv3] at hc3
+    have hy3 : |val (fdiv p d)| ≤ 3 := by
+      have h := abs_sub_abs_le_abs_sub (val (fdiv p d)) (val p / val d)
+      have h53 : |val p / val d| / 2 ^ 53 ≤ 1 := by
+        rw [div_le_one (by positivity)]; linarith [show (1:ℝ) ≤ 2 ^ 53 by norm_num]
+      have : (1:ℝ) / 10 ^ 30 ≤ 1 := by rw [div_le_one (by positivity)]; norm_num
+      linarith
+    have hprod : |val (fdiv p d) * piV F| ≤ 12 := by
+      rw [abs_mul, abs_of_pos (by linarith : (0:ℝ) < piV F)]
+      nlinarith [abs_nonneg (val (fdiv p d))]
+    obtain ⟨hf4, hv4⟩ := fmul_spec hf3 (fin_pi (F := F)) (by
+      rw [val_pi]; apply inRange_of_abs_le_1000; linarith)
+    rw [val_pi] at hv4
+    refine ⟨hf4, ?_⟩
+    have hc4 := rnd_close (F := F) (val (fdiv p d) * piV F)
+    rw [← hv4] at hc4
+    have h := abs_sub_abs_le_abs_sub (val (fmul (fdiv p d) (FloatLike.pi : F))) (val (fdiv p d) * piV F)
+    have h53 : |val (fdiv p d) * piV F| / 2 ^ 53 ≤ 1 := by
+      rw [div_le_one (by positivity)]; linarith [show (12:ℝ) ≤ 2 ^ 53 by norm_num]
     have : (1:ℝ) / 10 ^ 30 ≤ 1 := by rw [div_le_one (by positivity)]; norm_num
-    have : (2:ℝ) ^ 42 + 2 + 1 + 1 ≤ 2 ^ 43 := by norm_num
+    have : (12:ℝ) + 1 + 1 ≤ 2 ^ 43 := by norm_num
     linarith
+
+/-- the normalised total: finite, non-negative, at most `2^48`, for finite arguments with
+    `|p| ≤ 1e200`, `|d| ≥ 1e-200` and `|p·π/d| ≤ 2^42` (the property's `|2p/d| ≤ 2^40` gives `2^41·π/4`) -/
+theorem newTotal_spec {p d : F} (hp : Fin p) (hd : Fin d) (hpb : |val p| ≤ 10 ^ 200)
+    (hdl : 1 / 10 ^ 200 ≤ |val d|) (hq : |val p * piV F / val d| ≤ 2 ^ 42) :
+    Fin (newTotal p d) ∧ 0 ≤ val (newTotal p d) ∧ val (newTotal p d) ≤ 2 ^ 48 := by
+  have hpi3 := piV_gt3 (F := F); have hpi4 := piV_lt4 (F := F)
+  obtain ⟨hf2, hx2b⟩ := newRawTotal_spec hp hd hpb hdl hq
+  obtain ⟨x2, hx2⟩ : ∃ x, x = val (newRawTotal p d) := ⟨_, rfl⟩
+  rw [← hx2] at hx2b
   rw [abs_le] at hx2b
   unfold newTotal
   simp only
-  by_cases hneg : flt (fdiv (fmul p (FloatLike.pi : F)) d) (zero : F) = true
+  by_cases hneg : flt (newRawTotal p d) (zero : F) = true
   · rw [if_pos hneg]
     have hx2neg : x2 < 0 := by
       have := (flt_spec hf2 fin_zero).mp hneg; rwa [val_zero, ← hx2] at this
@@ -119,7 +192,7 @@ theorem newTotal_spec {p d : F} (hp : Fin p) (hd : Fin d) (hpb : |val p| ≤ 10 
     have hn5 := rnd_near (F := F) hqt0 (by have : (2:ℝ) ^ 41 ≤ 2 ^ 53 := by norm_num
                                            linarith)
     rw [← hv5, abs_le] at hn5
-    obtain ⟨y5, hy5⟩ : ∃ y, y = val (fdiv (fabs (fdiv (fmul p (FloatLike.pi : F)) d)) (fmul four (qp : F))) := ⟨_, rfl⟩
+    obtain ⟨y5, hy5⟩ : ∃ y, y = val (fdiv (fabs (newRawTotal p d)) (fmul four (qp : F))) := ⟨_, rfl⟩
     rw [← hy5] at hv5 hn5
     have hy50 : 0 ≤ y5 := by rw [hv5]; exact rnd_nonneg hqt0
     have hy51 : y5 ≤ 2 ^ 41 + 2 := by linarith [hn5.2]
@@ -165,7 +238,7 @@ theorem newTotal_spec {p d : F} (hp : Fin p) (hd : Fin d) (hpb : |val p| ≤ 10 
     have hn8 := rnd_near (F := F) hz0 (by have : (2:ℝ) ^ 45 ≤ 2 ^ 53 := by norm_num
                                           linarith)
     rw [← hv8, abs_le] at hn8
-    obtain ⟨y8, hy8⟩ : ∃ y, y = val (fmul (fmul (FloatLike.ceil (fdiv (fabs (fdiv (fmul p (FloatLike.pi : F)) d))
+    obtain ⟨y8, hy8⟩ : ∃ y, y = val (fmul (fmul (FloatLike.ceil (fdiv (fabs (newRawTotal p d))
       (fmul four (qp : F)))) four) (qp : F)) := ⟨_, rfl⟩
     rw [← hy8] at hv8 hn8
     have hy80 : 0 ≤ y8 := by rw [hv8]; exact rnd_nonneg hz0
